@@ -58,7 +58,7 @@ ASSUMPTIONS = [
     "names clause already reported as missing from / extra in the deciding scope are not reported again",
     "the module is analysed as pkg0/mod0.py of an otherwise empty project (imports resolve against sys.path only)",
 ]
-BUDGET = {"quick": (100000, 75), "thorough": (400000, 480)}
+BUDGET = {"quick": (100000, 240), "thorough": (400000, 900)}
 EXHAUSTIVE = {"thorough": True}
 REQUIRE = {"enum_modules": 18835, "corpus_modules": 100, "scopes_matched": 50000, "scopes_matched_comprehension": 10000,
            "names_required_checked": 150000, "lookups_checked": 60000, "line_queries": 200000,
